@@ -171,9 +171,26 @@ def check(ctx: Ctx) -> None:
         ctx.violation("R18.4", "Progress._update:payload", PROG, up.node, f"Progress._update passes {sorted(kws)}; i, total and message are required")
     ev = model.fi(PROG, "_update_every_N_percent")
     ctx.instance("R18.4", "emitted fraction is i/total or the last emitted step (both ≤ 1 under the guard)")
-    src = norm(ev.node)
-    if "progress: float = i / total" in src and "_update(*args, progress=_RECENT_PROGRESS, **kwargs)" in src.replace("progress=_RECENT_PROGRESS, *args", "*args, progress=_RECENT_PROGRESS") \
-            or ("i / total" in src and "progress=_RECENT_PROGRESS" in src and "progress=progress" in src):
+    def values_of(e: ast.AST, depth: int = 0) -> set:
+        """All expressions a name may stand for in _update_every_N_percent (every assignment; None dropped)."""
+        if isinstance(e, ast.Name) and depth < 4:
+            bs = [n.value for n in walk_ordered(ev.node) if isinstance(n, (ast.Assign, ast.AnnAssign)) and n.value is not None
+                  and norm(n.targets[0] if isinstance(n, ast.Assign) else n.target) == e.id]
+            if bs and e.id != "_RECENT_PROGRESS":
+                out = set()
+                for b in bs:
+                    if isinstance(b, ast.Constant) and b.value is None:
+                        continue
+                    out |= values_of(b, depth + 1)
+                return out
+        return {norm(e).replace(" ", "")}
+    emitted = set()
+    for c_ in calls_in(ev.node):
+        if dotted(c_.func) == "_update":
+            for k_ in c_.keywords:
+                if k_.arg == "progress":
+                    emitted |= values_of(k_.value)
+    if emitted and emitted <= {"i/total", "_RECENT_PROGRESS", "0.0", "0"} and "i/total" in emitted | {norm(n.value).replace(" ", "") for n in walk_ordered(ev.node) if isinstance(n, (ast.Assign, ast.AnnAssign)) and n.value is not None}:
         ctx.ok()
     else:
         ctx.violation("R18.4", "_update_every_N_percent:fraction", PROG, ev.node, "the emitted progress must be i/total (or the last emitted multiple of the step)")
